@@ -13,16 +13,6 @@ import VrlModel.Search.Node
 namespace Search.Wire
 open _root_.Wire
 
-/-- UTF-8 encoding of one scalar value -/
-def utf8Char (c : Char) : List Nat :=
-  let n := c.toNat
-  if n < 0x80 then [n]
-  else if n < 0x800 then [0xC0 + n / 64, 0x80 + n % 64]
-  else if n < 0x10000 then [0xE0 + n / 4096, 0x80 + n / 64 % 64, 0x80 + n % 64]
-  else [0xF0 + n / 262144, 0x80 + n / 4096 % 64, 0x80 + n / 64 % 64, 0x80 + n % 64]
-
-def utf8 (s : Str) : List Nat := s.flatMap utf8Char
-
 def hexOfStr (s : Str) : String := hexOfBytes (utf8 s)
 
 /-- strict UTF-8 decoding (driver side only) -/
